@@ -573,6 +573,13 @@ def real_ck(line):
             xs = list(dict.fromkeys(list(range(256)) + [256 + a, 512 + a, (a << 8) | b, 65536 + a]))      # also arguments that are no bytes
             ys = list(dict.fromkeys(list(range(256)) + [256 + b, 512 + b, (a << 8) | b, 65536 + b]))
             hits = [f'{x}:{y}' for x in xs for y in ys if c.matches(x, y)]
+            # asking is not changing: after all these questions the object still reports its pair, still says yes to it, and goes on
+            # summing from it
+            if c.value() != (a, b) or not c.matches(a, b) or not c.matches(a, b):
+                return 'CHANGED-BY-MATCHES ' + ','.join(hits)
+            c.add(1)
+            if c.value() != ((a + 1) & 0xFF, (b + a + 1) & 0xFF):
+                return 'SUMS-ON-FROM-ANOTHER-STATE-AFTER-MATCHES ' + ','.join(hits)
             c2 = reach(a, b)
             c2.reset()
             return ','.join(hits) + f' reset={c2.value()[0]}:{c2.value()[1]}'
@@ -595,7 +602,8 @@ def real_ck(line):
             for k in range(0, len(data), 7):        # (in pieces: each piece may come from another thread)
                 realenv.in_thread(lambda part: [c.add(x) for x in part], data[k:k + 7])
             va, vb = realenv.in_thread(c.value)
-            return f'{va},{vb} {"true" if c.matches(va, vb) else "false"}'
+            ok = c.matches(va, vb) and c.matches(va, vb) and c.value() == (va, vb)        # (asked twice: asking is not changing)
+            return f'{va},{vb} {"true" if ok else "false"}'
     except Exception as e:
         return 'EXC:' + exc_name(e)
     return 'bad-line'
@@ -1165,6 +1173,10 @@ def gen_ch(rng, n, profile):
 
 
 def parse_value(s):
+    if s == 'N':
+        return None                    # (a value somebody forgot to set)
+    if s.startswith('f:'):
+        return float(s[2:])
     return bytes.fromhex(s[2:]).decode('utf-8', 'surrogateescape') if s.startswith('s:') else int(s)
 
 
@@ -1757,7 +1769,7 @@ def parse_items(s):
     out = []
     for e in s.split(';'):
         g, i, bits, sg, v = e.split(',')
-        out.append((int(g), int(i), int(bits), sg == '1', int(v)))
+        out.append((int(g), int(i), int(bits), sg == '1', parse_value(v) if v == 'N' or v.startswith('f:') else int(v)))
     return out
 
 
